@@ -3,6 +3,7 @@ package checks
 import (
 	"encoding/base64"
 	"fmt"
+	"io"
 	"net/http"
 	"net/http/httptest"
 	"net/url"
@@ -92,16 +93,18 @@ func (c c17Cfg) String() string {
 }
 
 type c17World struct {
-	cfg    c17Cfg
-	root   string
-	m      *samlsp.Middleware
-	t0     time.Time
-	notchT []time.Time
-	delay  time.Duration
-	memo   map[string]*c17Reply
-	users  []string
-	urls   []string
-	impl   int
+	cfg       c17Cfg
+	root      string
+	m         *samlsp.Middleware
+	t0        time.Time
+	notchT    []time.Time
+	delay     time.Duration
+	memo      map[string]*c17Reply
+	users     []string
+	urls      []string
+	impl      int
+	artifacts map[string][]byte // artifact value -> the Response the stub resolver hands out (configurations "...+artifact")
+	dflt      string            // where a login without RelayState lands: the library default "/" or a configured DefaultRedirectURI
 }
 
 type c17Reply struct {
@@ -121,6 +124,11 @@ func newC17World(cf c17Cfg) *c17World {
 	w.urls = []string{"/app/one?x=1", "/%2Fother.example/a%2Fb%3Fc", "/app/three?y=2&z=%20q"} // the second one has reserved characters percent-encoded in its path: it must come back verbatim
 	kp := samlgen.Key(cf.key)
 	opts := samlsp.Options{URL: harness.MustURL(w.root), Key: kp.Key, Certificate: kp.Cert, IDPMetadata: harness.IDPMetadata("meta1", "", "")}
+	w.dflt = "/"
+	if cf.key != "sp2048" { // half of the configurations set their own landing page
+		w.dflt = "/landing?from=sso&x=%2F"
+		opts.DefaultRedirectURI = w.dflt
+	}
 	switch cf.rsf {
 	case "fixed":
 		opts.RelayStateFunc = func(_ http.ResponseWriter, r *http.Request) string {
@@ -129,12 +137,38 @@ func newC17World(cf c17Cfg) *c17World {
 	case "empty":
 		opts.RelayStateFunc = func(http.ResponseWriter, *http.Request) string { return "" }
 	}
+	artifact := strings.HasSuffix(cf.binding, "+artifact")
+	opts.UseArtifactResponse = artifact
 	m, err := samlsp.New(opts)
 	if err != nil {
 		panic(err)
 	}
-	if cf.binding == "post" {
+	if strings.HasPrefix(cf.binding, "post") {
 		m.Binding = saml.HTTPPostBinding
+	}
+	if artifact {
+		// responses travel by reference: the browser carries SAMLart, the middleware resolves it through this stub IdP back channel
+		w.artifacts = map[string][]byte{}
+		m.ServiceProvider.HTTPClient = &http.Client{Transport: rtFunc(func(r *http.Request) (*http.Response, error) {
+			body, _ := io.ReadAll(r.Body)
+			id := ""
+			if mm := artIDRe.FindSubmatch(body); mm != nil {
+				id = string(mm[1])
+			}
+			art := ""
+			if i := strings.Index(string(body), "Artifact>"); i >= 0 {
+				rest := string(body)[i+len("Artifact>"):]
+				if j := strings.Index(rest, "<"); j >= 0 {
+					art = rest[:j]
+				}
+			}
+			doc, ok := w.artifacts[art]
+			if !ok {
+				return &http.Response{StatusCode: 404, Status: "404 Not Found", Body: io.NopCloser(strings.NewReader("unknown artifact")), Header: http.Header{}}, nil
+			}
+			ar := harness.ArtifactResponseEl("id-artresp-"+art, id, samlgen.TS(saml.TimeNow()), samlgen.S(samlgen.IDPEntity), samlgen.StatusOK, samlgen.Parse(doc))
+			return httpOK(samlgen.Doc(harness.SoapEnvelope(ar)))
+		})}
 	}
 	w.m = m
 	return w
@@ -285,7 +319,7 @@ func runC17(c *core.Ctx) {
 	}
 	var jobs []job
 	if c.Thorough() {
-		for _, b := range []string{"redirect", "post"} {
+		for _, b := range []string{"redirect", "post", "redirect+artifact", "post+artifact"} {
 			for _, sc := range []string{"https", "http"} {
 				for _, k := range []string{"sp2048", "spec256"} {
 					for _, r := range []string{"nil", "fixed", "empty"} {
@@ -299,6 +333,7 @@ func runC17(c *core.Ctx) {
 			{c17Cfg{"redirect", "https", "sp2048", "nil"}, 2, 6}, {c17Cfg{"post", "http", "spec256", "fixed"}, 2, 6}, {c17Cfg{"redirect", "http", "spec256", "empty"}, 2, 6},
 			{c17Cfg{"post", "https", "sp2048", "nil"}, 2, 6}, {c17Cfg{"redirect", "https", "spec256", "fixed"}, 2, 6}, {c17Cfg{"post", "http", "sp2048", "empty"}, 2, 6},
 			{c17Cfg{"redirect", "https", "sp2048", "nil"}, 3, 5},
+			{c17Cfg{"redirect+artifact", "https", "sp2048", "nil"}, 2, 6}, {c17Cfg{"post+artifact", "http", "spec256", "fixed"}, 2, 5},
 		}
 	}
 	totalStates, totalTrans := 0, 0
@@ -500,7 +535,7 @@ func c17Start(w *c17World, s *c17State, k int) []string {
 	}
 	// decode the request the middleware emitted
 	var payload, relay string
-	if w.cfg.binding == "redirect" {
+	if strings.HasPrefix(w.cfg.binding, "redirect") {
 		if rep.code != 302 {
 			return []string{fmt.Sprintf("start/no-redirect|status %d", rep.code)}
 		}
@@ -562,6 +597,16 @@ func c17Start(w *c17World, s *c17State, k int) []string {
 	return out
 }
 
+// responseForm: the parameters the browser brings to the ACS for a Response document (by value, or by reference through an artifact).
+func (w *c17World) responseForm(doc []byte) url.Values {
+	if w.artifacts != nil {
+		art := "art-" + core.Hash12(string(doc))
+		w.artifacts[art] = doc
+		return url.Values{"SAMLart": {art}}
+	}
+	return url.Values{"SAMLResponse": {base64.StdEncoding.EncodeToString(doc)}}
+}
+
 func c17Answer(w *c17World, s *c17State, k int) []string {
 	f := &s.flows[k]
 	now := w.notchT[s.notch]
@@ -588,7 +633,7 @@ func c17Answer(w *c17World, s *c17State, k int) []string {
 
 func c17Deliver(w *c17World, s *c17State, k int, rs, rsName string, cookies map[string]string, viewName string) []string {
 	f := &s.flows[k]
-	form := url.Values{"SAMLResponse": {base64.StdEncoding.EncodeToString(f.response)}}
+	form := w.responseForm(f.response)
 	if rs != "" {
 		form.Set("RelayState", rs)
 	}
@@ -605,7 +650,7 @@ func c17Deliver(w *c17World, s *c17State, k int, rs, rsName string, cookies map[
 	var clear string
 	if mayLogin {
 		if rs == "" {
-			wantLoc = "/"
+			wantLoc = w.dflt
 		} else {
 			found := false
 			for j := range s.flows {
@@ -712,7 +757,7 @@ func c17Unsolicited(w *c17World, s *c17State, variant string, started int, rs, r
 		resp.InResponseTo, a.Confirmations[0].InResponseTo = nil, pend
 	}
 	doc := samlgen.Doc(harness.BuildResponse(resp, []*samlgen.Assertion{a}, harness.Layout{SignResponse: true}, idp1(), nil))
-	form := url.Values{"SAMLResponse": {base64.StdEncoding.EncodeToString(doc)}}
+	form := w.responseForm(doc)
 	if rs != "" {
 		form.Set("RelayState", rs)
 	}
